@@ -122,7 +122,18 @@ fn gen_case(r: &mut Rng, root: &str) -> Case {
                 stdin.extend_from_slice(format!("{root}/{}", pick_path(r)).as_bytes());
                 stdin.push(0);
             }
-            "xargs -0 mkdir -p".to_string()
+            if r.below(3) == 0 {
+                "xargs -0 mkdir -p".to_string()
+            } else {
+                // the staged, byte-counted directory list (sometimes a wrong count / a cut list)
+                let t = format!("{}/.copia-dir-list.copia-tmp", esc(root));
+                let n = if r.below(4) == 0 { stdin.len() + 1 } else { stdin.len() };
+                if r.below(4) == 0 && stdin.len() > 2 {
+                    let cut = 1 + r.usize_below(stdin.len() - 1);
+                    stdin.truncate(cut);
+                }
+                format!("mkdir -p $'{}' && {{ cat > $'{t}' && test \"$(wc -c < $'{t}')\" -eq {n} && xargs -0 mkdir -p < $'{t}' && rm -f -- $'{t}'; }} || {{ rm -f -- $'{t}'; false; }}", esc(root))
+            }
         }
         2 => {
             for _ in 0..r.urange(0, 3) {
@@ -384,7 +395,12 @@ pub fn calibrate_fs(n: u64, seed: u64) -> i32 {
             ops_total += 1;
             let p = *r.pick(&names);
             let q = *r.pick(&names);
-            let (real, simr, what): (Result<String, i32>, Result<String, i32>, String) = match r.below(9) {
+            let (real, simr, what): (Result<String, i32>, Result<String, i32>, String) = match r.below(10) {
+                9 => (
+                    std::fs::hard_link(root.join(p), root.join(q)).map(|()| String::new()).map_err(|e| errno(&e)),
+                    sim.link(&rs, p, q, 3).map(|_| String::new()).map_err(|e| errno(&e)),
+                    format!("link {p} -> {q}"),
+                ),
                 0 => (
                     std::fs::create_dir(root.join(p)).map(|()| String::new()).map_err(|e| errno(&e)),
                     sim.mkdir(&rs, p, 2).map(|()| String::new()).map_err(|e| errno(&e)),
